@@ -259,7 +259,8 @@ def classify_kani(name, h):
 PLAYBACK_RE = re.compile(r"Concrete playback unit test for `([^`]+)`:\s*```\n(.*?)```", re.S)
 
 
-def kani_counterexample(scratch, harness, timeout_s=900):
+def kani_counterexample(scratch, harness, timeout_s=None):
+    timeout_s = timeout_s or int(max(900, 2 * (harness.get("duration_s") or 0)))
     """Re-run one failing harness with concrete playback, then execute the generated test natively
     (cargo kani playback) against the real code in the scratch copy. Returns dict."""
     cmd = ["cargo", "kani", "--lib", "-Z", "function-contracts", "-Z", "stubbing", "-Z", "unstable-options",
